@@ -538,10 +538,19 @@ class DimensionValue(Value):
 
             sign, v, d = self.__reUnNumDim.findall(
                 normalize(item.value))[0]
-            if '.' in v:
-                val = float(sign + v)
-            else:
-                val = int(sign + v)
+            try:
+                if '.' in v:
+                    val = float(sign + v)
+                else:
+                    val = int(sign + v)
+            except ValueError:
+                # int(): more digits than the interpreter converts
+                val = None
+            if val is None or val in (float('inf'), float('-inf')):
+                self._log.error('DimensionValue: Number out of range: %s' %
+                                self._valuestr(cssText))
+                self.wellformed = False
+                return
 
             dim = None
             if d:
